@@ -109,6 +109,7 @@ func runC04(c *Ctx) {
 	c04TimeFormats(c)
 	c04BytesFormats(c)
 	c04RandomTypes(c)
+	runC04L3(c) // tree-level whole-value round trip vs the L3 model (Props/C04L3)
 }
 
 // ---------------------------------------------------------------- the round-trip predicate
@@ -715,9 +716,13 @@ func c04TimeFormats(c *Ctx) {
 		{"FormatTag+DefaultOptionsV1", []json.Options{ft, jsonv1.DefaultOptionsV1()}},
 	}
 	n := c.N(6000, 600000)
-	for i := 0; i < n; i++ {
+	bt, bd := ArithBoundaryTimes(), ArithBoundaryDurations()
+	for i := 0; i < n+len(bd); i++ {
 		s := sets[i%len(sets)]
 		d := time.Duration(BoundaryInt64(c.Rng))
+		if i < len(bd) {
+			d = time.Duration(bd[i]) // boundaries derived from the codecs' 64-bit arithmetic
+		}
 		pd := &d
 		in := c04DurBox{d, d, d, d, d, d, d, &d, &pd, nil}
 		var out c04DurBox
@@ -743,7 +748,7 @@ func c04TimeFormats(c *Ctx) {
 			c.Sample(map[string]any{"op": "duration-formats", "d": int64(d), "json": string(b)})
 		}
 	}
-	c.HitN("duration-formats(sec,milli,micro,nano,units,iso8601,string,ptr)", int64(n))
+	c.HitN("duration-formats(sec,milli,micro,nano,units,iso8601,string,ptr)", int64(n+len(bd)))
 	// bare durations under FormatDurationAsNano, also as map keys
 	for i := 0; i < n/4; i++ {
 		d := time.Duration(BoundaryInt64(c.Rng))
@@ -767,9 +772,12 @@ func c04TimeFormats(c *Ctx) {
 	}
 	c.HitN("duration-FormatDurationAsNano(map key, slice)", int64(n/4))
 
-	for i := 0; i < n; i++ {
+	for i := 0; i < n+len(bt); i++ {
 		s := sets[i%len(sets)]
 		tu := GenTime(c.Rng, "unix") // all of int64 seconds
+		if i < len(bt) {
+			tu = time.Unix(bt[i][0], bt[i][1]) // boundaries derived from the codecs' 64-bit arithmetic
+		}
 		tr := GenTime(c.Rng, "")     // years 1..9999 with zones
 		in := c04TimeBox{tr, tr, tu, tu, tu, tu, tu, &tu, tr, tr}
 		var out c04TimeBox
@@ -805,7 +813,8 @@ func c04TimeFormats(c *Ctx) {
 			c.Sample(map[string]any{"op": "time-formats", "json": trunc(string(b), 400)})
 		}
 	}
-	c.HitN("time-formats(default,RFC3339Nano,unix,unixmilli,unixmicro,unixnano,string,ptr,RFC3339,DateOnly)", int64(n))
+	c.HitN("time-formats(default,RFC3339Nano,unix,unixmilli,unixmicro,unixnano,string,ptr,RFC3339,DateOnly)", int64(n+len(bt)))
+	c.HitN("time-formats:arith-boundary times through Marshal/Unmarshal", int64(len(bt)))
 }
 
 // ---------------------------------------------------------------- (e) bytes formats
@@ -1063,8 +1072,15 @@ func c04TimeCorr(c *Ctx, or *Oracle) {
 	r := c.Rng
 	n := c.N(12000, 1500000)
 	var texts [][]byte // pool of produced texts for the mutator
-	for i := 0; i < n; i++ {
+	bt, bd := ArithBoundaryTimes(), ArithBoundaryDurations()
+	nb := max(len(bt), len(bd))
+	c.HitN("corr-time:arith-boundary (sec,nsec) pairs (W=sec*pow10+frac within ±2 of 2^63-1,2^63,2^64-1,2^64; floor/ceil(q/pow10)±2; 1e9±2; both signs)", int64(len(bt)))
+	c.HitN("corr-time:arith-boundary durations", int64(len(bd)))
+	for i := 0; i < nb+n; i++ {
 		d := BoundaryInt64(r)
+		if i < nb {
+			d = bd[i%len(bd)]
+		}
 		for _, p := range c04Pow10s {
 			var out []byte
 			if !call("appendDurationBase10", nil, func() { out = json.VerifAppendDurationBase10(nil, time.Duration(d), p) }) {
@@ -1103,6 +1119,9 @@ func c04TimeCorr(c *Ctx, or *Oracle) {
 		sec := BoundaryInt64(r)
 		tm := GenTime(r, "unix")
 		nsec := int64(tm.Nanosecond())
+		if i < nb {
+			sec, nsec = bt[i%len(bt)][0], bt[i%len(bt)][1]
+		}
 		tm = time.Unix(sec, nsec)
 		if tm.Unix() != sec || int64(tm.Nanosecond()) != nsec {
 			c.Violate("corr-time", "time.Unix", nil, map[string]any{"sec": sec, "nsec": nsec, "got": []int64{tm.Unix(), int64(tm.Nanosecond())},
